@@ -41,9 +41,9 @@ func TestCheck(t *testing.T) {
 		"(valid artefact, truncation at a length, single-byte alteration at a position with a mask, with or without recomputed hash/signature, zero buffer, short RLP string) " +
 		"and handed to the real decoder/handler; distinct_nontrivial = distinct (part, dialect/format, base artefact, mutation kind, state, outcome class) tuples actually observed"
 	run.Assume("fixed key pairs (three static keys, derived node keys); the property is checked over inputs, not over keys")
-	run.Assume("single-byte alterations use masks {01,80,ff} (quick) or all 255 values (thorough); truncation at every length; zero buffers of every length 0..110")
+	run.Assume("single-byte alterations: masks {01,80,ff} (quick); thorough: all 255 values where the decoder sees the altered value (re-signed discovery payloads, handshake plaintext, sub-protocol messages <= 160 bytes, RLPx stream), every bit + ff where a hash/MAC covers the byte, 32 fixed masks for long sub-protocol messages and the stateful discovery repetitions; truncation at every length; zero buffers of every length 0..110")
 	run.Assume("discovery runs in a synctest bubble: virtual clock, expiry and reply time-outs exact; node table empty, one remote address")
-	run.Assume("allocation bounds are measured by runtime.MemStats deltas in sequential passes, with constants at least 8x above the observed maximum")
+	run.Assume("allocation bounds are measured by runtime.MemStats deltas in sequential passes, with generous constants (at least twice the observed maximum; the dominant terms are the protocol's own limits: 2^24 for a decompressed frame, 64 KiB for a handshake packet, 10 MiB for a sub-protocol message)")
 
 	if d := ev.Replay(); d != nil {
 		switch dStr(d.Detail, "part") {
